@@ -357,6 +357,11 @@ class Interp:
             self.ctx.qcount += 1
             th = {'seq': T.SeqS, 'obj': T.SeqO}.get(want, T.SeqI)
             return VSeq(z3.Const('undefined-seq!%d' % self.ctx.qcount, th.sort), 'list', th)
+        if isinstance(v, VOpaque) and self.pure:
+            # spec text taking the length / elements of a value known only as an object term (an argument of a SUMMARISED event): the
+            # sequence that object is - a function of the object, nothing else known
+            th = {'seq': T.SeqS, 'int': T.SeqI}.get(want, T.SeqO)
+            return VSeq(self.ctx.uf('obj_as_' + str(th.sort), T.Obj, th.sort)(v.t), 'list', th)
         if isinstance(v, VRef):
             c = self.st.heap.get(v.loc)
             if isinstance(c, HList):
@@ -1665,7 +1670,9 @@ class Interp:
             d = ctx.registry.opaques[key]
             self.opaque_used.add(key)
             recv = [f.self_val] if f.self_val is not None else []
-            return self.opaque_call(d.get('event', fi.name), args, kwargs, node, d, recv=recv)
+            d2_ = dict(d)
+            d2_['__callee__'] = fi.qualname
+            return self.opaque_call(d.get('event', fi.name), args, kwargs, node, d2_, recv=recv)
         if mode == 'inline':
             self.inlined_used.add(key)
             return self.run_function(fi, f.self_val, args, kwargs, node)
@@ -1753,11 +1760,17 @@ class Interp:
             res = self.ctx.make_symbolic(self, rt, 'ret_' + name.replace('.', '_').replace(':', '_'))
         self.emit(name, frozen, kwargs, res)
         self.st.trace[-1].recv = list(recv)
+        self.st.trace[-1].callee = decl.get('__callee__')
         if decl.get('raises'):
             b = self.fresh_bool('raises_' + name.replace('.', '_').replace(':', '_'))
             if self.branch(b):
                 self.st.trace[-1].raised = True
-                raise PyExc(VExc('opaque:' + name, origin=name))
+                ex_ = VExc('opaque:' + name, origin=name)
+                # the class of the exception is unknown but FIXED: one symbolic class code per raise, so that `except A` / `except B`
+                # tests of the same exception are consistent and contracts can speak about it (event_raised_class)
+                ex_.cls_t = self.fresh_int('exc_cls')
+                self.st.trace[-1].exc_cls = ex_.cls_t
+                raise PyExc(ex_)
         if decl.get('assume'):
             # extern(..., assume="helper", reason="..."): an ASSUMED fact about what the external callee returns - the sidecar helper
             # applied to the result; listed with its reason among the unchecked assumptions of every run that uses it
@@ -2023,7 +2036,11 @@ class Interp:
         if ok and (len(self.pending) != pend0 or any(self.st.heap.get(k) is not heap0.get(k) for k in set(heap0) | set(self.st.heap) if k in heap0)):
             ok = False
         if not ok:
-            self.st = saved
+            # restore IN PLACE: callers (in_closure, loop cuts) hold a reference to this very state object
+            self.st.pc[:] = saved.pc
+            self.st.heap = saved.heap
+            self.st.trace = saved.trace
+            self.st.next_loc = saved.next_loc
             del self.pending[pend0:]
             self.dpos, self.decisions = dpos0, dec0
             return False, None
@@ -2111,7 +2128,11 @@ class Interp:
         if exc.cls.startswith('opaque:'):
             if any(n in ('Exception', 'BaseException') for n in names if isinstance(n, str)):
                 return True
-            return self.fresh_bool('exc_is')
+            ct = getattr(exc, 'cls_t', None)
+            if ct is None:
+                return self.fresh_bool('exc_is')
+            simple = [n if isinstance(n, str) else n.name for n in names]
+            return z3.Or(*[ct == self.ctx.exc_class_code(n.split('.')[-1]) for n in simple])
         for n in names:
             if self.ctx.exc_isinstance(exc.cls, n):
                 return True
